@@ -1826,6 +1826,11 @@ func streamHead(g *G) { // C08
 	rid := 1
 	for !g.full() {
 		g.routerLine(rid, routerOpt{name: "h", trace: g.chance(0.3)})
+		inGroup := g.chance(0.4) // the same router also reached through a Group: HEAD there is the same HEAD
+		if inGroup {
+			g.emit("group %d 0 0 %%_ %%- 0 %%- %%- %%- 0 0", rid)
+			g.emit("group-add %d %d any", rid, rid)
+		}
 		if g.chance(0.5) {
 			// /r is an interior node (a longer pattern lives below it): when its last method is removed BY NAME the node
 			// stays in the tree with an empty handler table; a later registration revives it
@@ -1850,6 +1855,9 @@ func streamHead(g *G) { // C08
 			g.emit("routes %d", rid)
 			for _, m := range []string{"GET", "HEAD", "OPTIONS", "POST"} {
 				g.serveLine("serve", rid, m, "/r", "", nil)
+				if inGroup && (m == "GET" || m == "HEAD") {
+					g.serveLine("gserve", rid, m, "/r", "", nil)
+				}
 			}
 		}
 		rid++
@@ -2244,6 +2252,23 @@ func streamIsolation(g *G) { // C07: decoys interleaved with an observed instanc
 		g.serveLine("serve", rid, "HEAD", "/created", "", nil)
 		g.serveLine("serve", dd, "GET", "/page", "", nil)
 		g.serveLine("serve", rid, "GET", "/created", "", nil)
+		// URL building: a decoy router with a URL domain is asked for strict URLs that FAIL after part of the text was produced
+		// (a later parameter is missing, or violates its rule); the observed router then builds strict and non-strict URLs —
+		// buffers reused between calls (a pool) must come back clean on the error path too
+		du := 1003 + g.intn(3)
+		g.routerLine(du, routerOpt{name: "durl", domain: "https://d.example"})
+		g.emit("handle %d %s 73 %%- %s", du, encB("/posts/{id}/c/{cid:\\d+}"), encL([]string{"GET"}))
+		ou := 300 + rid%100
+		g.routerLine(ou, routerOpt{name: "ourl", domain: g.pick([]string{"", "https://o.example"})})
+		g.emit("handle %d %s 74 %%- %s", ou, encB("/users/{id}"), encL([]string{"GET"}))
+		for k := 0; k < 2; k++ {
+			bad := [][]kv{{{"id", "7"}}, {{"id", "7"}, {"cid", "x"}}, {{"cid", "5"}}}[g.intn(3)]
+			g.emit("url %d 1 %s %s", du, encB("/posts/{id}/c/{cid:\\d+}"), encKVs(bad))
+			g.emit("url %d 1 %s %s", ou, encB("/users/{id}"), encKVs([]kv{{"id", "5"}}))
+			g.emit("url %d 0 %s %s", ou, encB("/users/{id}"), encKVs([]kv{{"id", "6"}}))
+			g.emit("url %d 1 %s %s", ou, encB("/users/{id}"), encKVs(nil)) // fails itself, then once more
+			g.emit("url %d 1 %s %s", ou, encB("/users/{id}"), encKVs([]kv{{"id", "8"}}))
+		}
 		// two requests alive at once on one router (a handler serving a sub-request), before and after a recovered panic and
 		// after HEAD requests: contexts are pooled, each request must keep exactly its own parameters
 		pr := 500 + rid%400
